@@ -39,6 +39,10 @@ type Net struct {
 	Fired map[string]int
 	// scenario-wide defaults for new links
 	DefaultPartial bool
+	// YieldOnWrite: Conn.Write is a scheduling point (a system call at which the
+	// calling goroutine may be descheduled). Only for worlds in which no
+	// uninstrumented library shares a real mutex across tasks around a Write.
+	YieldOnWrite bool
 	// FaultBudget: number of scheduler-chosen faults still allowed, by kind
 	FaultBudget map[string]int
 	// DialFail: number of upcoming Dial calls that fail, per address
@@ -461,6 +465,9 @@ func (c *Conn) Read(b []byte) (int, error) {
 
 func (c *Conn) Write(b []byte) (int, error) {
 	n := c.link.net
+	if n.YieldOnWrite {
+		simsync.Yield("simnet:write")
+	}
 	n.mu.Lock()
 	defer n.mu.Unlock()
 	p := c.out
